@@ -460,6 +460,9 @@ class CodeGen:
                     yield asm.Label(handler)
                     yield asm.Metadata('stop block')
                     self.effective_defeat = prev_defeat
+                    # Defeat is no longer virtualized once it has been
+                    # caught, later defeat must not come back here.
+                    yield asm.Mov(self.defeat, prev_defeat)
                     yield asm.Mov(self.fp, asm.State(self.try_fp))
                     yield from ap_bubble.value.to(self.ap)
                     yield from self.pop(ap_bubble)
